@@ -148,6 +148,7 @@ receiveLoop:
 	for {
 		select {
 		case msg, ok := <-leftMessages:
+			verifJoinEvent(ctx, 0, !ok, ok && msg.metadata)
 			if !ok {
 				leftDone = true
 				break receiveLoop
@@ -194,6 +195,7 @@ receiveLoop:
 			// TODO: Add backpressure
 
 		case msg, ok := <-rightMessages:
+			verifJoinEvent(ctx, 1, !ok, ok && msg.metadata)
 			if !ok {
 				leftDone = false
 				break receiveLoop
@@ -280,7 +282,12 @@ receiveLoop:
 		markOneStreamRemains()
 	}
 
+	verifOpenSide := 1
+	if !leftDone {
+		verifOpenSide = 0
+	}
 	for msg := range openChannel {
+		verifJoinEvent(ctx, verifOpenSide, false, msg.metadata)
 		if msg.err != nil {
 			return msg.err
 		}
@@ -310,6 +317,7 @@ receiveLoop:
 		}
 	}
 
+	verifJoinEvent(ctx, verifOpenSide, true, false)
 	if err := processRecordsUpTo(ctx, WatermarkMaxValue, oneStreamRemains); err != nil {
 		return err
 	}
